@@ -8,18 +8,18 @@ import vlib
 
 class LineCheck:
     def __init__(self, prop, modules, harness_name, harness_src, mode, gen, spec, nontrivial,
-                 rule, trusted, assumptions, stateful=False, chunk=1500):
+                 rule, trusted, assumptions, stateful=False, chunk=1500, extra_args=None):
         self.prop = prop; self.modules = modules; self.hname = harness_name; self.hsrc = harness_src
         self.mode = mode; self.gen = gen; self.spec = spec; self.nontrivial = nontrivial
         self.rule = rule; self.trusted = trusted; self.assumptions = assumptions
-        self.stateful = stateful; self.chunk = chunk
+        self.stateful = stateful; self.chunk = chunk; self.extra_args = extra_args or (lambda wd: [])
 
     def run_lines(self, exe, lines, wd, tag, lean_ok=True):
         """returns list of (cmd, impl_out|None, model_out|None), crash_info"""
         f = os.path.join(wd, "c%s.ops" % tag); o = os.path.join(wd, "c%s.out" % tag)
         with open(f, "w") as fh:
             fh.write("\n".join(lines) + "\n")
-        rc, so, se = vlib.run_cmd([exe, f, o], timeout=300)
+        rc, so, se = vlib.run_cmd([exe, f, o] + self.extra_args(wd), timeout=300)
         impl = open(o).read().split("\n") if os.path.exists(o) else []
         if impl and impl[-1] == "": impl.pop()
         crash = None
